@@ -455,8 +455,9 @@ class Impl:
         empties = " ".join(self.cname(c) for c in sp.empties)
         agents = " ".join(str(a._vidx) for a in sp.agents)
         reg = " ".join(str(a._vidx) for a in self.model.agents)
+        cap = " ".join(f"{self.cname(c)}:{c.capacity}" for c in cells if c.capacity is not None)
         return (f"ag={ag} | occ={occ} | empty={empty} | full={full} | layer={layer} | pempty={pempty} | "
-                f"empties={empties} | agents={agents} | reg={reg} | attr={attr}")
+                f"empties={empties} | agents={agents} | reg={reg} | attr={attr} | cap={cap}")
 
     # ------------------------------------------------------------------ ops
     def mutate(self, w):
@@ -486,6 +487,10 @@ class Impl:
             # the idiom for emptying a cell: iterate over the copy while the agents leave the cell's own list
             for a in sp[self.h.key(w[1])].agents:
                 a.remove()
+            return "ok"
+        if k == "setcap":
+            # the program writes a cell's capacity by hand after construction (an int, 0 included, or None)
+            sp[self.h.key(w[1])].capacity = parse_opt_int(w[2])
             return "ok"
         i = int(w[1])
         if i >= len(self.agents):
@@ -1194,6 +1199,22 @@ def gen_coll(R, h, names, impl=None, agents=True):
     return f"coll {expr} {verb}"
 
 
+def gen_setcap(R, h, names, impl=None):
+    """`cell.capacity = k` by hand after construction: mostly on an occupied cell, often under / at its occupancy (the occupants
+    stay, the cell refuses further agents), sometimes lifting the limit (None) or closing the cell (0); rarely no such cell"""
+    occd = [n for n in names if impl is not None and impl.space[h.key(n)]._agents]
+    c = R.choice(occd) if occd and R.random() < 0.7 else R.choice(names)
+    n = len(impl.space[h.key(c)]._agents) if impl is not None else 1
+    cur = impl.space[h.key(c)].capacity if impl is not None else h.capof(c)
+    for _ in range(4):  # mostly a value other than the one the cell has
+        k = R.choice(["-", "0", "1", "1", "2", "3", str(max(0, n - 1)), str(n), str(n + 1)])
+        if k != ("-" if cur is None else str(cur)):
+            break
+    if R.random() < 0.04:
+        c = ",".join(str(d) for d in h.dims) if h.kind == "grid" else str(h.n + 1)  # no such cell
+    return f"setcap {c} {k}"
+
+
 def gen_c06(R, rejecting=False, n_ops=None, header=None, edits=False, default_caps=False, rich=False):
     hd = header or (gen_header(R, default_caps=default_caps, rich=rich) if not rejecting else
                     R.choice([gen_grid_header(R, max_size=3, caps=(1, 1, 1, 2), max_cells=12),
@@ -1255,6 +1276,9 @@ def gen_c06(R, rejecting=False, n_ops=None, header=None, edits=False, default_ca
             if R.random() < 0.03:
                 c = ",".join(str(d) for d in h.dims) if h.kind == "grid" else str(h.n + 1)  # no such cell
             emit(f"{R.choice(['agentscopy', 'agentscopy', 'clearcell'])} {c}")
+            continue
+        if R.random() < 0.04:
+            emit(gen_setcap(R, h, names, impl))
             continue
         if edits and R.random() < 0.05:
             # connections edited after construction, mostly at the cell of an agent that can move: later relative moves
@@ -1382,10 +1406,30 @@ def oracle_c06(sc, obs, reject_clause=True):
                     bad.append(f"mirror: after `{line}` agent {a} reports no cell but is listed in {where}")
             elif where != [c]:
                 bad.append(f"mirror: after `{line}` agent {a} reports cell {c} but is listed in {where}")
-        # capacity (per cell: a VoronoiGrid with the default capacity_function gives every cell its own)
+        # a capacity written by hand (`cell.capacity = k`) is the cell's capacity from then on; the write changes nothing else
+        if w[0] == "setcap":
+            if res == "ok" and w[1] in capof:
+                capof[w[1]] = parse_opt_int(w[2])
+            elif res == "ok" or w[1] in capof:
+                bad.append(f"capacity-write: `{line}` -> {res}")
+            if prev is not None:
+                diff = [k for k in d if k not in ("cap", "full") and d[k] != prev.get(k)]
+                if diff:
+                    bad.append(f"capacity-write: `{line}` changed {diff}")
+        shown = dict(t.split(":") for t in d.get("cap", []))
+        if shown != {n: str(k) for n, k in capof.items() if k is not None}:
+            bad.append(f"capacity-write: after `{line}` the cells show capacities {shown}, built / written were "
+                       f"{ {n: k for n, k in capof.items() if k is not None} }")
+        # capacity (per cell: a VoronoiGrid with the default capacity_function gives every cell its own; the program may lower a
+        # capacity under the occupancy — the occupants stay): a cell never ACCEPTS an agent while it holds capacity-many or more,
+        # i.e. after every op it holds at most capacity-many or at most what it held before
+        was = {n: 0 for n in names}
+        if prev is not None:
+            for t in prev["occ"]:
+                was[t.partition(":")[0]] = len(t.partition(":")[2].split("."))
         for n in names:
-            if capof[n] is not None and len(occ[n]) > capof[n]:
-                bad.append(f"capacity: after `{line}` cell {n} holds {len(occ[n])} > {capof[n]}")
+            if capof[n] is not None and len(occ[n]) > capof[n] and len(occ[n]) > was[n]:
+                bad.append(f"capacity: after `{line}` cell {n} holds {len(occ[n])} > {capof[n]} (before: {was[n]})")
         # emptiness views
         truth = [n for n in names if not occ[n]]
         if d["empty"] != truth:
@@ -1483,6 +1527,9 @@ def tags_c06(sc, obs):
             yield "coll-base:" + w[1].split("+")[0].split(":")[0] + ("+select" if "+" in w[1] else "")
             if w[2] in ("randcell", "randagent") and res.startswith("ok") and len(w) > 4:
                 yield "coll:spare-draws-left-alone"
+        if w[0] == "setcap" and res == "ok" and prev is not None:
+            n = next((len(t.partition(":")[2].split(".")) for t in prev["occ"] if t.partition(":")[0] == w[1]), 0)
+            yield "setcap:" + ("none" if w[2] == "-" else "under-the-occupancy" if int(w[2]) < n else "at-the-occupancy" if int(w[2]) == n else "above")
         if w[0] in ("agentscopy", "clearcell") and prev is not None and res.startswith("ok"):
             n = next((len(t.partition(":")[2].split(".")) for t in prev["occ"] if t.partition(":")[0] == w[1]), 0)
             yield f"{w[0]}:{'empty-cell' if n == 0 else '1-agent' if n == 1 else 'several-agents'}"
